@@ -20,7 +20,7 @@ FORBIDDEN = re.compile(r"\b(sorry|admit|native_decide|bv_decide|implemented_by|u
 
 # property -> (theorem module, theorems to audit, drive args per tier, nontrivial rule)
 PROPS = {
-    "C01": dict(modules=["PolytuneModel.Thm.C01", "PolytuneModel.Thm.C01batches", "PolytuneModel.Thm.GenArith"], theorems=["PolytuneModel.C01_batches_agree_gen", "PolytuneModel.Gen_chunkSizeIter_eq", "PolytuneModel.C01_batches_agree", "PolytuneModel.C01_batches_cover", "PolytuneModel.C01_honest_correct", "PolytuneModel.step_inv", "PolytuneModel.eval_label"], drive="C01", also=["C01m", "C19m"], cases=dict(quick=60, thorough=600),
+    "C01": dict(modules=["PolytuneModel.Thm.C01", "PolytuneModel.Thm.C01batches", "PolytuneModel.Thm.GenArith", "PolytuneModel.Thm.C01tied"], theorems=["PolytuneModel.OnlineMsgs.C01_tied_model_results", "PolytuneModel.OnlineMsgs.walk_state", "PolytuneModel.C01_batches_agree_gen", "PolytuneModel.Gen_chunkSizeIter_eq", "PolytuneModel.C01_batches_agree", "PolytuneModel.C01_batches_cover", "PolytuneModel.C01_honest_correct", "PolytuneModel.step_inv", "PolytuneModel.eval_label"], drive="C01", also=["C01m", "C19m"], cases=dict(quick=60, thorough=600),
                 rule="generated register circuits x inputs x n x p_eval x p_out x tmp_dir x capacity x schedule, plus AND chains on both sides of the 1000-gate batch boundary; non-trivial = has an AND gate or register reuse; distinct by (circuit, p_eval, p_out)"),
     "C02": dict(modules=["PolytuneModel.Thm.C03", "PolytuneModel.Thm.C02agree", "PolytuneModel.Thm.Sites", "PolytuneModel.Thm.C02eval"], theorems=["PolytuneModel.C02_evaluator_rows", "PolytuneModel.C02_evaluator_values", "PolytuneModel.C03_check_sites_present", "PolytuneModel.C02_agreement", "PolytuneModel.openReg_detect_or_extract", "PolytuneModel.openOutput_sound", "PolytuneModel.C02_cex_missing_output_share", "PolytuneModel.C02_fixed_rejects_missing"], drive="C03", only="C02", cases=dict(quick=1, thorough=1),
                 rule="one forged field of one online message per run (13 fields x adversary role x n in {2,3} x 3 inputs); oracle: an honest Ok is f(x_H, x') for some x'; distinct by (n, phase, field, role)"),
